@@ -21,6 +21,16 @@ var pool = sync.Pool{
 var invalid *regexp.Regexp = regexp.MustCompile(`\W`)
 
 var helperFuncs = template.FuncMap{
+	// longstring renders a text as a VCL long string. The plain form {"..."}
+	// ends at the first "} so a text that contains these two characters
+	// (e.g. the JSON body {"error":"x"}) needs a heredoc delimiter.
+	"longstring": func(text string) string {
+		delimiter := ""
+		for i := 0; bytes.Contains([]byte(text), []byte(`"`+delimiter+`}`)); i++ {
+			delimiter = fmt.Sprintf("EOT%d", i)
+		}
+		return "{" + delimiter + `"` + text + `"` + delimiter + "}"
+	},
 	"printtype": func(dtype int) string {
 		switch DirectorType(dtype) {
 		case Random:
@@ -198,12 +208,13 @@ var responseObjectConditionTemplate = template.Must(
 
 var responseObjectTemplate = template.Must(
 	template.New("responseobject").
+		Funcs(helperFuncs).
 		Parse(
 			`
 if (obj.status == {{ .StatusCode }}) {{"{"}}
 	set obj.status = {{ .Status }};
 	set obj.http.Content-Type = "{{ .ContentType }}";
-	synthetic {{"{\""}}{{if .Content }}{{ .Content }}{{else}}{{ .Response }}{{end}}{{"\"}"}};
+	synthetic {{if .Content }}{{ .Content | longstring }}{{else}}{{ .Response | longstring }}{{end}};
 	return(deliver);
 {{"}"}}
 `,
